@@ -196,6 +196,10 @@ def draws_rule(ctx, rid):
 def run(ctx):
     from . import shared
     shared.precedence_rule(ctx, "C15.R8")
+    from . import harvest as _h
+    _h.loader_errors_rule(ctx, "C15.R9", "Sampler")
+    from . import c04 as _c04
+    _c04.fresh_settings_rule(ctx, "C15.R10")
     append_rule(ctx, "C15.R1")
     one_run_one_append_rule(ctx, "C15.R2")
     flags = {"to_df": [sweep.TRUE], "shuffle": [sweep.FALSE, sweep.TRUTHY], "parse": [sweep.FALSE, sweep.TRUE], "cases": [sweep.TRUTHY], "combos": [sweep.FALSY],
